@@ -12,6 +12,8 @@ P_BAD2 = "lea r15, [rax+rsp]\nlea rcx, [2*rbx]\nadd rax, [rbx\nret"
 P_LONG = "\n".join(["mov rax, 0x7fffffff", "lea rdx, [rcx+rsp]"] * 15)
 P_HUGE = "\n".join(["mov rax, 0x7fffffff", "lea rdx, [rcx+rsp]", "mov rax, 0x1122334455667788"] * 300)  # does not fit a 4096-byte caller buffer
 P_SIB = "lea r15, [rax+rsp]\nlea rcx, [2*rbx]\nmov rdx, 0x000000007fffffff\nret"
+P_ONES = "mov rax, -1\nadd rcx, 0xffffffffffffffff\npush -1\nand eax, 18446744073709551615\nret"  # the value strtoul also returns on overflow
+P_OVER = "mov rax, 0x7fffffff\nmov rcx, 0x10000000000000000\nret"  # a literal that does not fit 64 bits: the call fails, errno keeps ERANGE
 
 # history alphabet (14 symbols). 'cfg' symbols are replayed on the fresh instance too.
 ALPHA = {
@@ -35,8 +37,9 @@ EXTRA = {  # used by the random part only
     "debug1": (["debug 0 1"], True), "debug0": (["debug 0 0"], True),
     "chunk16": (["chunk 0 16"], True), "swap0": (["opt 0 swap 0"], True), "all1": (["opt 0 all 1"], True), "odd": (["opt 0 all 7"], True),
     "setoff0": (["setoff 0 0"], False), "asm2": (["asm 0 %s" % common.hx(P_OK2)], False),
+    "errno34": (["errno 0 34"], False), "errno22": (["errno 0 22"], False), "asmover": (["asm 0 %s" % common.hx(P_OVER)], False),
 }
-FINALS = [("asm", P_OK), ("asm", P_OK2), ("cnt 8", P_OK2), ("asm", P_LONG), ("asm", P_BAD), ("cnt 3", P_OK), ("asm", P_SIB)]
+FINALS = [("asm", P_OK), ("asm", P_OK2), ("cnt 8", P_OK2), ("asm", P_LONG), ("asm", P_BAD), ("cnt 3", P_OK), ("asm", P_SIB), ("asm", P_ONES)]
 START = 11
 
 
@@ -90,6 +93,24 @@ def run(tier):
         kind = "ext 4096 H 0xcc" if hi % 2 == 0 else "int"
         for f in FINALS:
             jobs.append((h, f, kind))
+    # ---- "storms": the same action repeated N times with N around the capacities of narrow counters (2^8, 2^9, 2^16) between an
+    # assemble call and the final one. What matters is a COUNT, which no bounded alphabet reaches.
+    units = {"movtoggle": (["opt 0 mov 1", "opt 0 mov 2"], True), "swaptoggle": (["opt 0 swap 0", "opt 0 swap 1"], True), "nobasetoggle": (["opt 0 nobase 0", "opt 0 nobase 1"], True),
+             "alltoggle": (["opt 0 all 0", "opt 0 all 1"], True), "chunktoggle": (["chunk 0 8", "chunk 0 0"], True), "setoffs": (["setoff 0 5", "setoff 0 9"], False),
+             "smallasm": (["setoff 0 0", "asm 0 %s" % common.hx("nop")], False), "smallcnt": (["setoff 0 0", "cnt 0 4 %s" % common.hx("mov rax, rbx")], False),
+             "others": (["new 1 ext 64 H 0xcc", "del 1"], False), "failing": (["asm 0 %s" % common.hx("bogus")], False)}
+    nstorm = 0
+    for uname, (ucmds, ucfg) in sorted(units.items()):
+        ns = [254, 256, 258, 510, 512, 514] + ([65534, 65536, 65538] if uname in ("movtoggle", "alltoggle") else []) + ([1022, 1024, 4096] if full else [])
+        for N in ns:
+            sym = "storm:%s*%d" % (uname, N)
+            table[sym] = (ucmds * (N // len(ucmds)), ucfg)
+            for pre in (("mov0", "asm"), ("sib0", "nobase1", "asm"), ("all1", "cnt8")):
+                if N > 60000 and pre != ("mov0", "asm"):
+                    continue
+                for f in ((FINALS[0], FINALS[6]) if N < 60000 else (FINALS[0],)):
+                    jobs.append((pre + (sym,), f, "ext 4096 H 0xcc" if nstorm % 2 else "int"))
+                    nstorm += 1
     used = common.run_cases(binary, [script(h, f, table, False, kind) for (h, f, kind) in jobs], tag="c15u")
     fresh_keys = {}
     for (h, f, kind) in jobs:
@@ -99,7 +120,7 @@ def run(tier):
     fres = common.run_cases(binary, [script(k[0], k[1], table, True, k[2]) for k in fk], tag="c15f")
     for k, r in zip(fk, fres):
         fresh_keys[k] = outcome(r)
-    stats = {"exhaustive_histories_upto3": n_exh, "random_histories": len(hists) - n_exh, "final_calls": len(FINALS), "fresh_references": len(fk),
+    stats = {"storm_histories": nstorm, "exhaustive_histories_upto3": n_exh, "random_histories": len(hists) - n_exh, "final_calls": len(FINALS), "fresh_references": len(fk),
              "final_ok": 0, "final_failed_consistently": 0}
     for (h, f, kind), r in zip(jobs, used):
         v.count()
@@ -130,7 +151,7 @@ def run(tier):
     v.cov["rule"] = ("histories over a 14-symbol alphabet (other instances created/destroyed, option setters, chunk on/off, set offset, successful / malformed / counting / failing-counting calls): ALL histories of "
                      "length <= 3 (2955) x 6 final calls, then seeded histories of length 4-30 over a 24-symbol alphabet (adds out-of-room calls, c<2 counting, debug, odd option values); caller and "
                      "library buffers alternate. After asm_set_offset the final call's (rc, offset, count, bytes) must equal the same call on a fresh instance that received only the history's "
-                     "configuration calls; bytes before the call's start must be intact")
+                     "configuration calls; bytes before the call's start must be intact. Plus 'storms': an assemble call, then one action (option / chunk toggles, offsets, small assemble or counting calls, failing calls, other instances created and destroyed) repeated N = 254..258, 510..514 (65534..65538 for option toggles) times, then the final call; and the ambient errno set to ERANGE/EINVAL before a call")
     v.cov["exhaustive"] = True
     v.cov.update(stats)
     return v.finish(None, stats["final_ok"] > 1000, "too few successful final calls: %r" % stats)
